@@ -5,6 +5,8 @@ T=${1:-quick}
 cd /verif
 for d in seeded/C??*; do
   n=$(basename $d); P=${n:0:3}
+  # a change whose breakage belongs to another property's check names it in seeded/<id>/check_with
+  [ -f $d/check_with ] && P=$(cat $d/check_with)
   [ -f $d/patch.diff ] || continue
   r=$(tools/try_seeded.sh $n $P $T 2>&1)
   rc=$(echo "$r" | grep -o "exit=[0-9]*" | tail -1)
